@@ -5,8 +5,10 @@ Driver for C14. One case is a history of Loads on one Config (strings hex-encode
 
   <id> CFG <schema> <nValidators> <bound> <n> <probe key>… Z <n> { <field> <zero value> }*
        L <n> { S <n> { F | O <kvs> }*  B ( N | R | K <n> { <field> <value> }* )
-               FI <n> { <field> <present> <zero> }*  RD <n> <placement>* }*
-    => { L <failed> V <kvs> B <n> { <field> <value> }* G <n> <res>* RD <n> { <consistent> <kvs> }* }*
+               FI <n> { <field> <present> <zero> }*  RD <n> <placement>*
+               RC ( 0 | 1 S … B … FI … ) }*          (RC 1: a second Load runs concurrently with these sources)
+    => { L <failed> V <kvs> B <n> { <field> <value> }* G <n> <res>* TY <typed getters agree> RD <n> { <consistent> <kvs> }*
+         RC ( 0 | 1 <second Load failed> ) }*
 
   <kvs> ::= <n> { <key> ( L <rendering> | M <kvs> ) }*      <res> ::= N | L <rendering> | M
   placement: 0 pointer taken before the Load and read after it, 1 inside a source's Load,
@@ -42,8 +44,9 @@ def pPair : P (Bytes × Bytes) := do
 structure LoadCase where
   inp : LoadInput
   readers : List Nat
+  race : Option LoadInput
 
-def pLoad : P LoadCase := do
+def pInput : P LoadInput := do
   lit "S"
   let srcs ← list pSrc
   lit "B"
@@ -58,9 +61,16 @@ def pLoad : P LoadCase := do
     let p ← bool
     let z ← str
     pure ({ name := n, present := p, zero := z } : FieldInfo))
+  pure { srcs := srcs, bind := bind, fields := fields }
+
+def pLoad : P LoadCase := do
+  let inp ← pInput
   lit "RD"
   let rds ← list nat
-  pure { inp := { srcs := srcs, bind := bind, fields := fields }, readers := rds }
+  lit "RC"
+  let raced ← bool
+  let race ← if raced then some <$> pInput else pure none
+  pure { inp := inp, readers := rds, race := race }
 
 structure Case where
   schema : Bool
@@ -93,6 +103,7 @@ def pRes : P Res := do
 structure Obs where
   load : LoadObs
   readers : List (Bool × Kvs)
+  raceFailed : Option Bool
 
 def pObs1 (keys : List Bytes) : P Obs := do
   lit "L"
@@ -103,9 +114,15 @@ def pObs1 (keys : List Bytes) : P Obs := do
   let bound ← list pPair
   lit "G"
   let gets ← list pRes
+  lit "TY"
+  let typed ← bool
   lit "RD"
   let rds ← list (do let ok ← bool; let m ← pKvs; pure (ok, m))
-  pure { load := { failed := failed, values := vals, bound := bound, gets := keys.zip gets }, readers := rds }
+  lit "RC"
+  let raced ← bool
+  let rf ← if raced then some <$> bool else pure none
+  pure { load := { failed := failed, values := vals, bound := bound, gets := keys.zip gets, typed := typed },
+         readers := rds, raceFailed := rf }
 
 partial def pObsAll (keys : List Bytes) : P (List Obs) := do
   match ← peek with
@@ -141,12 +158,35 @@ def stepLoad (c : Case) (st : State) (prevV : Kvs) (prevB : List (Bytes × Bytes
     o.readers.all fun (ok, seen) => ok && readerOK prevV o.load.values seen
   (st', mi, s, s!"L {if mFailed then 1 else 0} G {mGets.length}" ++ String.join (mGets.map fun r => " " ++ encRes r))
 
+/-- two racing Loads: the implementation must match one of the two orders of the locked regions -/
+def stepRace (c : Case) (st : State) (prevV : Kvs) (prevB : List (Bytes × Bytes)) (a b : LoadInput)
+    (o : Obs) (failedB : Bool) : State × Bool × Bool × String :=
+  let order (x y : LoadInput) : State × Bool × Bool :=
+    let r1 := modelLoad c st x
+    let r2 := modelLoad c r1.1 y
+    (r2.1, r1.2 != .ok, r2.2 != .ok)
+  let (sAB, fA1, fB1) := order a b
+  let (sBA, fB2, fA2) := order b a
+  let fits (s : State) (fa fb : Bool) : Bool :=
+    (o.load.failed == fa) && (failedB == fb) && kvsEq o.load.values s.values &&
+    (!c.bound || o.load.bound == s.bound) &&
+    (o.load.gets.map (·.2) == c.keys.map fun k => classify (get s.values k))
+  let mAB := fits sAB fA1 fB1
+  let mBA := fits sBA fA2 fB2
+  let getsFit (x : LoadInput) : Bool := o.load.gets.all fun (k, r) => r == specGet (okMaps x) k
+  let s := raceOK c.schema c.nv prevV prevB a b o.load.failed failedB o.load.values o.load.bound &&
+    o.load.typed && ((o.load.failed && failedB) || getsFit a || getsFit b)
+  (if mAB then sAB else sBA, mAB || mBA, s, s!"RACE AB={mAB} BA={mBA}")
+
 def runCase (c : Case) (obs : List Obs) : Bool × Bool × String :=
   let rec go (st : State) (prevV : Kvs) (prevB : List (Bytes × Bytes)) :
       List LoadCase → List Obs → Bool × Bool × String
     | [], [] => (true, true, "")
     | lc :: ls, o :: os =>
-      let (st', mi, s, txt) := stepLoad c st prevV prevB lc o
+      let (st', mi, s, txt) := match lc.race, o.raceFailed with
+        | some b, some fb => stepRace c st prevV prevB lc.inp b o fb
+        | none, none => stepLoad c st prevV prevB lc o
+        | _, _ => (st, false, false, "race-mismatch")
       let (mi2, s2, txt2) := go st' o.load.values o.load.bound ls os
       (mi && mi2, s && s2, txt ++ " " ++ txt2)
     | _, _ => (false, false, "length-mismatch")
